@@ -302,7 +302,19 @@ func runC15(c *Ctx) {
 					return false
 				}
 				cc := ci.Common()
-				return cc.IsInvoke() && N(cc.Method) == "Reset" && fromGet(cc.Value)
+				if cc.IsInvoke() && N(cc.Method) == "Reset" && fromGet(cc.Value) {
+					return true
+				}
+				// handed to a helper of the shipped packages that resets it before anything else
+				// (refactoring B27_r1: compressInto(comp, dst, src))
+				if g := cc.StaticCallee(); g != nil && !cc.IsInvoke() && p.inScope(g) && len(g.Blocks) > 0 {
+					for i, a := range cc.Args {
+						if fromGet(a) && i < len(g.Params) && resetsParamFirst(g, g.Params[i]) {
+							return true
+						}
+					}
+				}
+				return false
 			}
 			isUse := func(x ssa.Instruction) bool {
 				ci, ok := x.(ssa.CallInstruction)
@@ -310,6 +322,9 @@ func runC15(c *Ctx) {
 					return false
 				}
 				if _, isDefer := x.(*ssa.Defer); isDefer {
+					return false
+				}
+				if isReset(x) {
 					return false
 				}
 				cc := ci.Common()
@@ -570,4 +585,48 @@ func isSyncState(t types.Type) bool {
 		return true
 	}
 	return false
+}
+
+
+// resetsParamFirst: on every path through g the parameter is Reset, and nothing uses it before.
+func resetsParamFirst(g *ssa.Function, prm *ssa.Parameter) bool {
+	is := func(v ssa.Value) bool {
+		for {
+			switch x := v.(type) {
+			case *ssa.ChangeInterface:
+				v = x.X
+				continue
+			case *ssa.MakeInterface:
+				v = x.X
+				continue
+			}
+			break
+		}
+		return v == ssa.Value(prm)
+	}
+	isReset := func(x ssa.Instruction) bool {
+		ci, ok := x.(ssa.CallInstruction)
+		return ok && ci.Common().IsInvoke() && N(ci.Common().Method) == "Reset" && is(ci.Common().Value)
+	}
+	isUse := func(x ssa.Instruction) bool {
+		ci, ok := x.(ssa.CallInstruction)
+		if !ok {
+			return false
+		}
+		cc := ci.Common()
+		if cc.IsInvoke() && is(cc.Value) && N(cc.Method) != "Reset" {
+			return true
+		}
+		for _, a := range cc.Args {
+			if is(a) {
+				return true
+			}
+		}
+		return false
+	}
+	if used, _ := (PathQuery{Target: isUse, Avoid: isReset}).Search(g, nil); used {
+		return false
+	}
+	ok, _ := MustPassToExit(g, nil, isReset, IsExit, nil)
+	return ok
 }
